@@ -84,10 +84,10 @@ func VH_C11_agmessage_decoders_total() {
 // ReadResponse / ReadTargetInfo on arbitrary bytes.
 //
 //verif:prop C11
-//verif:bounds stream length in {0,1,2,5,40}, first bytes (response code, string length) symbolic, bytes symbolic
+//verif:bounds stream length in {0,1,2,4,40}; response code and reason bytes symbolic; target-URL length byte in {0,1,3,200} (URL text parsing is exponential in its length), bytes symbolic
 //verif:cover returned
 func VH_C11_proxy_decoders_total() {
-	n := verifPick("streamlen", 0, 1, 2, 5, 40)
+	n := verifPick("streamlen", 0, 1, 2, 4, 40)
 	raw := verifBytes("stream", n)
 	s := &c18Buf{b: raw}
 	verifAllocLimit(65536 + 40)
@@ -95,7 +95,7 @@ func VH_C11_proxy_decoders_total() {
 		_ = ReadResponse(s)
 	} else {
 		if n >= 1 {
-			raw[0] = byte(verifPick("urllen", 0, 1, 4, 39, 200))
+			raw[0] = byte(verifPick("urllen", 0, 1, 3, 200))
 		}
 		_, _ = ReadTargetInfo(s)
 	}
